@@ -119,6 +119,15 @@ def run_call(pool, call, res):
     try:
         if kind in ('map', 'map_unordered', 'imap', 'imap_unordered'):
             data = build_input(call)
+            if call.get('nested_misuse'):
+                # start a lazy call, take one result, then call another map on the same pool while it is running
+                outer = pool.imap_unordered(func, data, **params)
+                first = next(outer)
+                try:
+                    pool.map_unordered(func, [1, 2, 3])
+                finally:
+                    outer.close()
+                raise AssertionError('nested map did not raise')
             consume = call.get('consume')        # for lazy variants: how many items to take, then close
             if kind in ('imap', 'imap_unordered'):
                 gen = getattr(pool, kind)(func, data, **params)
